@@ -1,18 +1,26 @@
 (* C03 — durability-aware model of ONE log file behind an appendable (singleapp/multiapp):
 
      durable : the content as of the last fsync            (survives any crash)
-     pending : writes handed to the OS since then, in order (each may or may not survive)
+     pending : writes AND TRUNCATIONS handed to the OS since then, in order (each may or may not survive)
      buf     : bytes still in the user-space write buffer   (lost at any crash)
      bufoff  : file offset at which the buffered bytes will be written
 
-   A rewind (SetOffset below the file offset) moves `bufoff` back and NEVER truncates: stale bytes
-   beyond the rewound offset stay in `durable`/`pending` exactly as they are on disk, and a reopen
-   takes the size from the file.  This file contains definitions only. *)
+   A rewind (SetOffset below the flushed file offset) TRUNCATES the file there (singleapp.SetOffset
+   since fix 09014a8; multiapp also removes the chunk files behind the offset and fsyncs the
+   directory); the truncation is not fsynced by itself, so at a crash it is undetermined until the
+   next fsync of the file: a crash image may have it applied or not (both are admitted, which also
+   covers the durable removal of whole chunks).  Preallocated files keep their size (no truncation).
+   A reopen takes the size from the file.  This file contains definitions only. *)
 From V Require Export Base.Bytes.
+
+(* what is handed to the OS: pwrite(off, data) or ftruncate(n) *)
+Inductive pw := PW (off : N) (d : bytes) | PT (n : N).
+Definition pw_off (w : pw) : N := match w with PW o _ => o | PT n => n end.
+Definition pw_data (w : pw) : bytes := match w with PW _ d => d | PT _ => [] end.
 
 Record file := mkFile {
   durable : bytes;
-  pending : list (N * bytes);
+  pending : list pw;
   bufoff : N;
   buf : bytes }.
 
@@ -21,8 +29,9 @@ Record file := mkFile {
 Definition wr (c : bytes) (off : N) (d : bytes) : bytes :=
   take off c ++ d ++ drop (off + len d) c.
 
-Definition apply_writes (c : bytes) (ws : list (N * bytes)) : bytes :=
-  fold_left (fun c w => wr c (fst w) (snd w)) ws c.
+Definition apply1 (c : bytes) (w : pw) : bytes :=
+  match w with PW o d => wr c o d | PT n => take n c end.
+Definition apply_writes (c : bytes) (ws : list pw) : bytes := fold_left apply1 ws c.
 
 (* what the operating system would return for the whole file *)
 Definition os_view (f : file) : bytes := apply_writes (durable f) (pending f).
@@ -35,20 +44,21 @@ Definition f_offset (f : file) : N := bufoff f + len (buf f).
 Definition f_append (f : file) (d : bytes) : file :=
   mkFile (durable f) (pending f) (bufoff f) (buf f ++ d).
 
-(* SetOffset: above the current offset is an error; at or above the file offset it only shortens
-   the buffer; below the file offset it discards the buffer and moves the file position back
-   (singleapp.SetOffset; the file is not truncated) *)
-Definition f_setoffset (f : file) (o : N) : option file :=
+(* SetOffset: above the current offset is an error; at or above the flushed file offset it only
+   shortens the buffer; below it the buffer is discarded, the file position moves back and — unless
+   the file is preallocated (keep = true) — the file is truncated there *)
+Definition f_setoffset_gen (keep : bool) (f : file) (o : N) : option file :=
   if f_offset f <? o then None
   else if bufoff f <=? o then Some (mkFile (durable f) (pending f) (bufoff f) (take (o - bufoff f) (buf f)))
-  else Some (mkFile (durable f) (pending f) o []).
+  else Some (mkFile (durable f) (if keep then pending f else pending f ++ [PT o]) o []).
+Definition f_setoffset (f : file) (o : N) : option file := f_setoffset_gen false f o.
 
 (* the first n buffered bytes are handed to the OS (explicit Flush = all of them; a full write
    buffer flushes whatever it holds, possibly in the middle of a record) *)
 Definition f_flushn (f : file) (n : N) : file :=
   match take n (buf f) with
   | [] => f
-  | d => mkFile (durable f) (pending f ++ [(bufoff f, d)]) (bufoff f + len d) (drop n (buf f))
+  | d => mkFile (durable f) (pending f ++ [PW (bufoff f) d]) (bufoff f + len d) (drop n (buf f))
   end.
 Definition f_flush (f : file) : file := f_flushn f (len (buf f)).
 
@@ -56,13 +66,17 @@ Definition f_flush (f : file) : file := f_flushn f (len (buf f)).
 Definition f_sync (f : file) : file :=
   let g := f_flush f in mkFile (os_view g) [] (bufoff g) [].
 
-(* a crash image: the durable content overwritten by the first k pending writes and by the first t
-   bytes of the next one (torn write) *)
-Definition image_of (f : file) (k : nat) (t : N) : bytes :=
-  apply_writes (durable f)
-    (firstn k (pending f) ++
-     match nth_error (pending f) k with Some w => [(fst w, take t (snd w))] | None => [] end).
-Definition crash_image (f : file) (img : bytes) : Prop := exists k t, img = image_of f k t.
+(* a crash image: the durable content after the first k pending operations and the first t bytes of
+   the next write (torn write); any truncation among them may be missing (its effect on the inode
+   did not reach the disk) *)
+Definition prefix_torn (ws : list pw) (k : nat) (t : N) : list pw :=
+  firstn k ws ++ match nth_error ws k with Some (PW o d) => [PW o (take t d)] | _ => [] end.
+Inductive sub_trunc : list pw -> list pw -> Prop :=
+| st_nil : sub_trunc [] []
+| st_keep : forall w a b, sub_trunc a b -> sub_trunc (w :: a) (w :: b)
+| st_skip : forall n a b, sub_trunc a b -> sub_trunc (PT n :: a) b.
+Definition crash_image (f : file) (img : bytes) : Prop :=
+  exists k t ws, sub_trunc (prefix_torn (pending f) k t) ws /\ img = apply_writes (durable f) ws.
 
 (* reopen after a crash (or a clean restart): size and position come from the file *)
 Definition f_open (img : bytes) : file := mkFile img [] (len img) [].
@@ -71,12 +85,13 @@ Definition f_empty : file := f_open [].
 Definition slice (c : bytes) (o n : N) : bytes := take n (drop o c).
 
 (* writes at consecutive offsets starting at o *)
-Fixpoint stream_from (o : N) (ws : list (N * bytes)) : Prop :=
+Fixpoint stream_from (o : N) (ws : list pw) : Prop :=
   match ws with
   | [] => True
-  | w :: r => fst w = o /\ stream_from (o + len (snd w)) r
+  | PW o' d :: r => o' = o /\ stream_from (o + len d) r
+  | PT _ :: _ => False
   end.
-Definition concat_w (ws : list (N * bytes)) : bytes := concat (map snd ws).
-(* pending writes followed by the buffered bytes, as one list of writes *)
-Definition tailw (o : N) (b : bytes) : list (N * bytes) := match b with [] => [] | _ :: _ => [(o, b)] end.
-Definition fstream (f : file) : list (N * bytes) := pending f ++ tailw (bufoff f) (buf f).
+Definition concat_w (ws : list pw) : bytes := concat (map pw_data ws).
+(* pending operations followed by the buffered bytes, as one list *)
+Definition tailw (o : N) (b : bytes) : list pw := match b with [] => [] | _ :: _ => [PW o b] end.
+Definition fstream (f : file) : list pw := pending f ++ tailw (bufoff f) (buf f).
